@@ -60,6 +60,14 @@ class C03(AttBase):
                                         D.rbg(lo, hi, AC.as128("2800")), D.rbg(rng.randrange(0x10000), rng.randrange(0x10000))]))
             rng.shuffle(reqs)
             cases += D.chunked(self, "sweep", cfg, rng, info, reqs)
+            # near miss values (every configured service / characteristic uuid, varied in one respect)
+            near = []
+            for v in d.near_values:
+                near.append(D.fbtv(1, 0xffff, v))
+                for _ in range(1 if not ctx.thorough else 6):
+                    lo, hi = AC.pick_range(rng, info)
+                    near.append(D.fbtv(lo, hi, v))
+            cases += D.chunked(self, "near", cfg, rng, info, near)
             sessions = []
             for k in range(24 if not ctx.thorough else 200):
                 lo = rng.choice([1, 1, 1, rng.choice(d.pool) or 1])
